@@ -163,7 +163,9 @@ func (i *Domain) Distance(
 			alignment = telem.NewAlignment(iter.Position(), uint32(sampleCount(iter.Size())))
 			return
 		}
-		if iter.TimeRange().ContainsStamp(tr.End) {
+		// The end of the range may also sit exactly on the end of this domain, just as
+		// in the single domain case above.
+		if iter.TimeRange().ContainsStamp(tr.End) || tr.End == iter.TimeRange().End {
 			if err = r.Close(); err != nil {
 				return
 			}
